@@ -384,7 +384,7 @@ class BaseTemplateFile(BaseTemplate):
     # performance hit
     auto_reload = AUTO_RELOAD
 
-    _v_last_read: float | None
+    _v_last_read: tuple[Any, ...] | None
 
     def __init__(
         self,
@@ -421,13 +421,18 @@ class BaseTemplateFile(BaseTemplate):
             mtime = self.mtime()
             _verif_point("check.mtime", template=self, mtime=mtime)
 
-            if mtime != self._v_last_read:
+            # A rewrite may keep the modification time (or change it by
+            # less than a float can tell), so the nanosecond time and
+            # the size take part in the comparison, too.
+            stamp = (mtime,) + self._stat_details()
+
+            if stamp != self._v_last_read:
                 # Clear the flag before remembering the modification
                 # time: a concurrent caller that sees the new time must
                 # not find the template still marked as cooked.
                 self._cooked = False
                 _verif_point("check.uncooked", template=self)
-                self._v_last_read = mtime
+                self._v_last_read = stamp
                 _verif_point("check.last_read_set", template=self)
 
         if self._cooked is False:
@@ -455,6 +460,18 @@ class BaseTemplateFile(BaseTemplate):
             return os.path.getmtime(filename)
         except OSError:
             return 0
+
+    def _stat_details(self) -> tuple[int | None, int | None]:
+        try:
+            if self.package_name is None:
+                st = os.stat(self.filename)
+            else:
+                with import_package_resource(self.package_name) as path:
+                    st = path.joinpath(self.filename).stat()
+        except (OSError, AttributeError):
+            # missing file, or a resource that is not a file system path
+            return None, None
+        return st.st_mtime_ns, st.st_size
 
     def read(self) -> str:
         if self.package_name is not None:
